@@ -11,13 +11,16 @@ Next == \/ i = 0 /\ i' \in {-b : b \in 1..NB}
 Spec == Init /\ [][Next]_i
 StEq(a, b) == a.n = b.n /\ a.xs = b.xs /\ a.nested = b.nested /\ a.dl = b.dl /\ a.s = b.s /\ a.child = b.child
               /\ a.tmp = b.tmp /\ a.ro = b.ro /\ a.kids = b.kids /\ a.hasx = b.hasx /\ a.xval = b.xval
+              /\ a.pvset = b.pvset /\ a.pvval = b.pvval
 Clauses(c) ==
   IF c.op = "copy"
   THEN (IF c.exc # "" THEN {"C14-copy-raised"} ELSE
-        (IF StEq(c.post, Copied(c.pre)) THEN {} ELSE
-           IF KF22Guard(c.pre) /\ StEq(c.post, Copied_KF22(c.pre)) THEN {"KF22"} ELSE
-           IF StEq([c.post EXCEPT !.tmp = 0], Copied(c.pre)) THEN {"C14-transient-not-at-default"} ELSE {"C14-copy-state-differs"})
+        (IF StEq(c.post, CopiedAs(c.pre, c.kind)) THEN {} ELSE
+           IF KF22Guard(c.pre) /\ StEq(c.post, Copied_KF22(c.pre, c.kind)) THEN {"KF22"} ELSE
+           IF KF22Guard(c.pre) /\ c.kind = "clone_deep" /\ StEq(c.post, Copied_KF22_deep(c.pre, c.kind)) THEN {"KF22"} ELSE
+           IF StEq([c.post EXCEPT !.tmp = 0], CopiedAs(c.pre, c.kind)) THEN {"C14-transient-not-at-default"} ELSE {"C14-copy-state-differs"})
         \cup (IF c.sameclass = 1 THEN {} ELSE {"C14-copy-of-other-class"})
+        \cup (IF c.pvread = PvRead(c.post) THEN {} ELSE {"C14-deferred-attribute-read-on-copy"})
         \cup (IF c.shared = 0 THEN {} ELSE {"C14-copy-shares-mutable-container"})
         \cup (IF c.total = Sum(c.post.xs) THEN {} ELSE {"C14-property-stale-on-copy"})
         \cup (IF c.total2 = Sum(c.post.xs) THEN {} ELSE {"C14-depends_on-property-stale-on-copy"})
@@ -25,6 +28,7 @@ Clauses(c) ==
   ELSE LET r == Step(c.pre, c.op, c.v) IN
        (IF StEq(c.post, r.st) THEN {} ELSE {"C14-state"})
        \cup (IF (c.exc = r.exc) \/ (r.exc # "" /\ r.exc # "TraitError" /\ c.exc # "") THEN {} ELSE {"C14-outcome"})
+       \cup (IF c.pvread = PvRead(c.post) THEN {} ELSE {"C14-deferred-attribute-read"})
        \cup (IF c.obs = r.obs THEN {} ELSE {"C14-declared-observer"})
        \cup (IF c.dyn = r.dyn THEN {} ELSE {"C14-items-handler"})
        \cup (IF c.pobs = r.pobs THEN {} ELSE {"C14-declared-post-init-observer"})
